@@ -24,6 +24,22 @@ pub const F_FRAC_I: u128 = B::new().digit_separator(sep()).fraction_internal_dig
 pub const F_EXP_I: u128 = B::new().digit_separator(sep()).exponent_internal_digit_separator(true).build_strict();
 pub const F_INT_ILTC: u128 = B::new().digit_separator(sep()).integer_digit_separator_flags(true).build_strict();
 
+/// R2 only, partial tokenizer only (cheap enough for long digit templates)
+pub fn cmp_sep_r2<const F: u128>(s: &[u8]) -> Result<(), &'static str> {
+    let opts = Options::new();
+    let rp = parse_partial_number::<F>(s.bytes::<F>(), false, &opts);
+    let r0 = parse_partial_number::<F0>(s.bytes::<F0>(), false, &opts);
+    match (&rp, &r0) {
+        (Ok((a, na)), Ok((b, nb))) => {
+            if na != nb { return Err("R2: consumed count differs from the separator-free format"); }
+            if a.mantissa != b.mantissa || (a.mantissa != 0 && a.exponent != b.exponent) || a.many_digits != b.many_digits { return Err("R2: value differs from the separator-free format"); }
+            Ok(())
+        },
+        (Err(_), Err(_)) => Ok(()),
+        _ => Err("R2: accept/reject differs from the separator-free format"),
+    }
+}
+
 pub fn strip(s: &[u8], out: &mut [u8; 32]) -> usize {
     let mut n = 0;
     let mut i = 0;
@@ -105,4 +121,73 @@ crate::harnesses! {
     /// @timeout 3000
     #[cfg_attr(kani, kani::unwind(9))]
     fn sep_all_len6() { sep_body!(F_ALL, 6) }
+
+    /// @tier thorough
+    /// separators enabled for the integer component only: d.dddddddd (8 symbolic fraction digits, no separator byte) must
+    /// be read exactly as in the separator-free format (the 8-digit fast path must keep the digit counts in sync).
+    /// @prop C13 C12
+    /// @feat format radix_format
+    /// @bound format F_INT_I; inputs of the shape [0-9].[0-9]{8}
+    /// @fn lexical-parse-integer::algorithm::try_parse_8digits (digit counting)
+    /// @fn lexical-util::skip::{step_by_unchecked, increment_count, current_count}
+    /// @fn lexical-parse-float::parse::parse_number (n_after_dot)
+    /// @timeout 1800
+    #[cfg_attr(kani, kani::unwind(12))]
+    fn sep_int_only_long_fraction() {
+        let ds: [u8; 9] = any();
+        let mut buf = [0u8; 10];
+        let mut i = 0;
+        while i < 9 { assume(ds[i] >= b'0' && ds[i] <= b'9'); i += 1; }
+        buf[0] = ds[0]; buf[1] = b'.';
+        let mut j = 1;
+        while j < 9 { buf[j + 1] = ds[j]; j += 1; }
+        let r = cmp_sep_r2::<F_INT_I>(&buf);
+        vcheck!(r.is_ok(), "no separator byte in the input: same result as in the separator-free format");
+    }
+
+    /// @tier thorough
+    /// separators enabled for the exponent only: 8 symbolic integer digits + '.' + digit.
+    /// @prop C13 C12
+    /// @feat format radix_format
+    /// @bound format F_EXP_I; inputs of the shape [0-9]{8}.[0-9]
+    /// @fn lexical-parse-integer::algorithm::try_parse_8digits (digit counting)
+    /// @timeout 1800
+    #[cfg_attr(kani, kani::unwind(12))]
+    fn sep_exp_only_long_integer() {
+        let ds: [u8; 9] = any();
+        let mut buf = [0u8; 10];
+        let mut i = 0;
+        while i < 9 { assume(ds[i] >= b'0' && ds[i] <= b'9'); i += 1; }
+        let mut j = 0;
+        while j < 8 { buf[j] = ds[j]; j += 1; }
+        buf[8] = b'.'; buf[9] = ds[8];
+        let r = cmp_sep_r2::<F_EXP_I>(&buf);
+        vcheck!(r.is_ok(), "no separator byte in the input: same result as in the separator-free format");
+    }
+
+    /// contract of the multi-digit step on a contiguous component of a separator format: when 8 (4) digits are consumed at
+    /// once, the cursor AND the digit count advance by 8 (4) (Iter::step_by_unchecked contract: the caller counts the digits).
+    /// @prop C13 C12 C10
+    /// @feat format radix_format
+    /// @fn lexical-parse-integer::algorithm::try_parse_8digits
+    /// @fn lexical-parse-integer::algorithm::try_parse_4digits
+    /// @fn lexical-util::skip::{step_by_unchecked, increment_count, current_count}
+    fn sep_multidigit_step_counts() {
+        use lexical_parse_integer::algorithm::{try_parse_4digits, try_parse_8digits};
+        use lexical_util::iterator::Iter;
+        let ds: [u8; 8] = any();
+        let mut i = 0;
+        while i < 8 { assume(ds[i] >= b'0' && ds[i] <= b'9'); i += 1; }
+        // fraction component of F_INT_I has no separator flag => contiguous, but the format as a whole is not
+        let mut b = ds.bytes::<F_INT_I>();
+        let before = b.current_count();
+        let r: Option<u64> = { let mut it = b.fraction_iter(); try_parse_8digits::<u64, _, F_INT_I>(&mut it) };
+        vcheck!(r.is_some(), "eight digit bytes are consumed by the 8-digit step");
+        vcheck!(b.cursor() == 8, "cursor advanced by 8");
+        vcheck!(b.current_count() == before + 8, "digit count advanced by 8 (kept in sync with the cursor)");
+        let mut b4 = ds.bytes::<F_INT_I>();
+        let before4 = b4.current_count();
+        let r4: Option<u32> = { let mut it = b4.fraction_iter(); try_parse_4digits::<u32, _, F_INT_I>(&mut it) };
+        vcheck!(r4.is_some() && b4.cursor() == 4 && b4.current_count() == before4 + 4, "4-digit step: cursor and digit count advanced by 4");
+    }
 }
